@@ -15,8 +15,8 @@ PROP = "C11"
 RULE = ("every spec of the universes with <=5 atoms (isolated atoms, attributes, descriptors incl. placeholders, stereo changes) "
         "x every mapping with injective induced total map: all total permutations (n<=4; family above), injection into a fresh pool, "
         "all partial mappings (every subset of atoms sent to fresh ids; every pair swapped; a mapping that mentions only absent ids), "
-        "a mapping onto identifiers whose Python hashes coincide (-1/-2, n/n+2^61-1); plus a 7-coordinate centre and 133-atom graphs "
-        "under a reduced mapping family "
+        "a mapping onto identifiers whose Python hashes coincide (-1/-2, n/n+2^61-1); plus a 7-coordinate centre, 133-atom graphs, graphs with two / four stereo centres (8 / 12 atoms) and dienes with two stereo bonds "
+        "under a reduced mapping family that includes double swaps, 4-cycles and chains a->b, b->fresh "
         "x {copy, in place}.  Oracle: (a) snapshot == reference renaming, source untouched for copy / same object returned in place; "
         "(b) copy and in-place agree; (c) relabelling back with the inverse mapping restores the snapshot; (d) differential: every "
         "single follow-up edit and ==/hash behaves on the relabelled graph exactly as on a freshly built graph with the same content.  "
